@@ -72,11 +72,11 @@ func MergeSearchResults(lim uint16, firstAttr string, cmpInt bool, sets [][]clie
 					if err != nil {
 						return nil, false, fmt.Errorf("non-int attribute in result #%d", i)
 					}
-				} else {
+				} else if sets[i][0].Attributes[0] != sets[minInd][0].Attributes[0] { // also covers missing values (NOT_PRESENT)
 					switch firstAttr {
 					default:
 						cmpAttr = strings.Compare(sets[i][0].Attributes[0], sets[minInd][0].Attributes[0])
-					case object.FilterParentID, object.FilterFirstSplitObject:
+					case object.FilterParentID, object.FilterFirstSplitObject, object.AttributeAssociatedObject:
 						if err = curOID.DecodeString(sets[i][0].Attributes[0]); err == nil {
 							err = minOID.DecodeString(sets[minInd][0].Attributes[0])
 						}
@@ -988,7 +988,7 @@ func CalculateCursor(filt *object.SearchFilter, lastItem client.SearchResultItem
 			copy(res[off+intValLen:], lastItem.ID[:])
 			return res, nil
 		}
-	case object.FilterOwnerID, object.FilterFirstSplitObject, object.FilterParentID:
+	case object.FilterOwnerID, object.FilterFirstSplitObject, object.FilterParentID, object.AttributeAssociatedObject:
 		var err error
 		if val, err = base58.Decode(lastItemVal); err != nil {
 			return nil, fmt.Errorf("decode %q attribute value from Base58: %w", attr, err)
@@ -1006,7 +1006,8 @@ func CalculateCursor(filt *object.SearchFilter, lastItem client.SearchResultItem
 		if _, err = hex.Decode(res[off:], []byte(lastItemVal)); err != nil {
 			return nil, fmt.Errorf("decode %q attribute from HEX: %w", attr, err)
 		}
-		off += copy(res[off+ln:], MetaAttributeDelimiter)
+		off += ln
+		off += copy(res[off:], MetaAttributeDelimiter)
 		copy(res[off:], lastItem.ID[:])
 		return res, nil
 	case object.FilterSplitID:
